@@ -6,19 +6,20 @@ from ..interp import *
 from ..runner import Ob, ok, viol, inconc
 META = dict(
     functions=['PoseidonGoldilocks::merkletree_seq / _avx / _avx512', 'merkletree_batch_seq / _avx / _avx512', 'merkletree / merkletree_batch (default wrappers, both build configurations)', 'MerklehashGoldilocks::getTreeNumElements', 'MerklehashGoldilocks::root (both overloads)', 'linear_hash* and hash* (interpreted)'],
-    bounds={'quick': 'num_rows in {1,2,4,8,16}; num_cols 0..9 (16 rows: cols 0,1,5,9); dim 1..2; batch_size in {1, 2, 3, num_cols, num_cols+1}; nThreads in {0 (default), 1, 3}; all input matrices', 'thorough': 'num_rows up to 32, num_cols 0..17, dim 1..3, batch_size 1..num_cols+1'},
+    bounds={'quick': 'num_rows in {1,2,4,8,16,32,64}; num_cols 0..9 (16 rows: cols 0,1,5,9; 32 and 64 rows: cols 0,1,9, dim 1); dim 1..2; batch_size in {1, 2, 3, num_cols, num_cols+1}; nThreads in {0 (default), 1, 3}; all input matrices', 'thorough': 'num_rows up to 32, num_cols 0..17, dim 1..3, batch_size 1..num_cols+1'},
     outside=['shapes above the bound', 'parallel execution (C12)'], stubs=['omp_get_max_threads returns 4'],
     assumptions=['the permutation is the uninterpreted function PERM (C06); the input holds exactly rows*cols*dim words and the tree buffer exactly getTreeNumElements(rows) words, so over-reads / over-writes are events'],
     trusted_base=['reference tree gv/props/poseidon.py:ref_tree / leaves_of'])
 def shapes(ctx):
-    R = (1, 2, 4, 8, 16, 32) if ctx.thorough else (1, 2, 4, 8, 16); Cm = 17 if ctx.thorough else 9; D = (1, 2, 3) if ctx.thorough else (1, 2); out = []
+    R = (1, 2, 4, 8, 16, 32, 64, 128) if ctx.thorough else (1, 2, 4, 8, 16, 32, 64); Cm = 17 if ctx.thorough else 9; D = (1, 2, 3) if ctx.thorough else (1, 2); out = []
     for rows in R:
         for cols in range(0, Cm + 1):
             if not ctx.thorough and cols in (6, 7) and rows > 2: continue
             if not ctx.thorough and rows == 16 and cols not in (0, 1, 5, 9): continue
-            if rows == 32 and cols not in (0, 1, 9): continue
+            if rows >= 32 and cols not in (0, 1, 9): continue
             for dim in D:
                 if dim == 3 and cols > 6: continue
+                if rows >= 32 and dim > 1: continue
                 bs = [None] + (sorted(set([1, 2, 3, max(cols, 1), cols + 1])) if not ctx.thorough else list(range(1, cols + 2)))
                 for b in bs:
                     if ctx.thorough and b is not None and rows > 4 and b not in (1, 2, cols, cols + 1): continue
